@@ -7,5 +7,6 @@ CONSTANTS
   DEV_GlobalPrecision = FALSE
   DEV_AccumulatingRoot = FALSE
     DEV_NoTruncate = TRUE
+  DEV_NetworkCached = FALSE
 VIEW View
 PROPERTY PropOwnInputs
